@@ -2,6 +2,7 @@ package go_clipper2
 
 import (
 	"math"
+	"math/big"
 
 	"github.com/govalues/decimal"
 )
@@ -165,23 +166,32 @@ func ScalePathDToPath64(path PathD, scale float64) Path64 {
 }
 
 func ScalePath64ToPathD(path Path64, scale float64) PathD {
-	dScale, _ := decimal.NewFromFloat64(scale)
+	dScale, err := decimal.NewFromFloat64(scale)
 
 	result := make(PathD, len(path))
 	for i, pt := range path {
-		ptX, _ := decimal.New(pt.X, 0)
-		ptY, _ := decimal.New(pt.Y, 0)
-
-		mulX, _ := ptX.Mul(dScale)
-		mulY, _ := ptY.Mul(dScale)
-
-		x, _ := mulX.Float64()
-		y, _ := mulY.Float64()
-
-		result[i] = PointD{X: x, Y: y}
+		result[i] = PointD{X: scaleCoord(pt.X, scale, dScale, err == nil), Y: scaleCoord(pt.Y, scale, dScale, err == nil)}
 	}
 
 	return result
+}
+
+// scaleCoord multiplies an integer coordinate by scale in decimal arithmetic. A product that does not fit
+// the 19 digits of a decimal (large coordinates with a negative precision) is formed exactly in binary
+// instead of being replaced by 0.
+func scaleCoord(v int64, scale float64, dScale decimal.Decimal, dScaleOK bool) float64 {
+	if dScaleOK {
+		if d, err := decimal.New(v, 0); err == nil {
+			if m, err := d.Mul(dScale); err == nil {
+				if f, ok := m.Float64(); ok {
+					return f
+				}
+			}
+		}
+	}
+	p := new(big.Float).SetPrec(128).SetInt64(v)
+	f, _ := p.Mul(p, new(big.Float).SetPrec(128).SetFloat64(scale)).Float64()
+	return f
 }
 
 func ScalePathsDToPaths64(paths PathsD, scale float64) Paths64 {
